@@ -47,6 +47,8 @@ type VerifNet struct {
 	Down map[string]bool
 	// DropHelloReply[a+">"+b] = n: the next n Hello replies from b to a are lost after b processed them
 	DropHelloReply map[string]int
+	// HoldAcks[a+">"+b] = true: acks from b are not delivered to a until released
+	HoldAcks       map[string]bool
 	pipes          map[string]*verifPipe // current pipe a>b
 	Dials          int
 	Retries        int
@@ -76,7 +78,7 @@ var verifNets = map[*Federation]*VerifNode{}
 
 func NewVerifNet() *VerifNet {
 	log = zap.NewNop()
-	nw := &VerifNet{Nodes: map[string]*VerifNode{}, Down: map[string]bool{}, DropHelloReply: map[string]int{}, pipes: map[string]*verifPipe{}}
+	nw := &VerifNet{Nodes: map[string]*VerifNode{}, Down: map[string]bool{}, DropHelloReply: map[string]int{}, HoldAcks: map[string]bool{}, pipes: map[string]*verifPipe{}}
 	servePeerEventStream = verifServePeer
 	return nw
 }
@@ -340,7 +342,8 @@ func (c *verifFedClient) Hello(ctx context.Context, in *ClientHello, _ ...grpc.C
 
 type verifClientStream struct {
 	grpc.ClientStream
-	p *verifPipe
+	p  *verifPipe
+	nw *VerifNet
 }
 
 type verifServerStream struct {
@@ -370,7 +373,7 @@ func (c *verifFedClient) EventStream(ctx context.Context, _ ...grpc.CallOption) 
 		_ = peer.F.EventStream(ss)
 		p.broken = true // the handler returned: the RPC is over
 	})
-	return &verifClientStream{p: p}, nil
+	return &verifClientStream{p: p, nw: c.nw}, nil
 }
 
 func (s *verifClientStream) Send(e *Event) error {
@@ -383,8 +386,8 @@ func (s *verifClientStream) Send(e *Event) error {
 }
 
 func (s *verifClientStream) Recv() (*Ack, error) {
-	vsched.WaitUntil("fed.client.Recv", func() bool { return len(s.p.toClient) > 0 || s.p.broken })
-	if len(s.p.toClient) == 0 {
+	vsched.WaitUntil("fed.client.Recv", func() bool { return (len(s.p.toClient) > 0 && !s.nw.HoldAcks[s.p.key]) || s.p.broken })
+	if len(s.p.toClient) == 0 || s.p.broken && s.nw.HoldAcks[s.p.key] {
 		return nil, errVerifCut
 	}
 	a := s.p.toClient[0]
